@@ -145,7 +145,7 @@ def gen_run(rng, cfg):
             op["items"] = items
             ops.append(op)
         a = {"reuse": rng.random() < 0.25, "ops": ops, "kind": kind}
-        if kind in ("parse", "mixed", "roundtrip") and not long_inputs and not deep and rng.random() < 0.15:
+        if kind in ("parse", "mixed", "roundtrip") and not long_inputs and not deep and rng.random() < 0.25:
             # a "recovering" actor: one long-lived parser, a call that fails with state
             # in flight, then further calls on the same parser (solo baseline does the same)
             a["reuse"] = True
